@@ -876,3 +876,16 @@ def o_norecip_broadcast(c, obs):
                 return "cmd %d: the emitter sent to a dropped mailbox (in a broadcast whose other recipients were full) but the call returned %s, not NoRecipient(m0)" % (j - 1, res)
             return None
     return None
+
+
+def o_norecip_query(c, obs):
+    """C11 (fault norecip_query): the call in which model 0 (input 3) sends a query to a dropped mailbox through a
+    single-connection requestor port must fail with NoRecipient naming model 0."""
+    if "norecip_query" not in c.get("tags", ()):
+        return None
+    for j, (res, t, ents) in enumerate(obs):
+        if any(e.startswith("H:0:3:") for e in ents):
+            if res != "norecip:0":
+                return "cmd %d: model 0 queried a dropped mailbox but the call returned %s, not NoRecipient(m0)" % (j - 1, res)
+            return None
+    return None
